@@ -61,6 +61,8 @@ pub fn gen_replay(rng: &mut Rng, k: usize, o: &GenOpts) -> (Replay, Vec<String>)
     // item counts per frame at the boundaries of small counters (the recorder never emits that many; the format allows it)
     if gte(v,3,0) && !r.frames.is_empty() && k % 6 == 1 { let n = [16usize, 256, 17, 257, 15, 300, 255][(k / 6) % 7]; let fi = (rng.next() as usize) % r.frames.len(); let isz = r.frames[fi].items.first().map_or(0, |x| x.len());
         let isz = if isz == 0 { crate::gen::item_size(v) - 4 } else { isz }; while r.frames[fi].items.len() < n { r.frames[fi].items.push(rng.bytes(isz)); } }
+    // items that repeat within a frame: the same spawn id on adjacent Item events (k % 7 == 3), or the whole event twice (k % 14 == 10)
+    if gte(v,3,0) && k % 7 == 3 { for f in r.frames.iter_mut() { if f.items.is_empty() { continue; } if f.items.len() == 1 || k % 14 == 10 { let it = f.items[0].clone(); f.items.insert(1, it); } else if f.items[0].len() >= 33 { let id = f.items[0][29..33].to_vec(); f.items[1][29..33].copy_from_slice(&id); } } }
     let shape = if k % 2 == 0 { (k / 2) % 6 } else { (rng.next() % 6) as usize };
     match shape { 0 => r.end = None, 1 => r.metadata = None, 2 => r.double_end = true, 3 => { r.end = None; r.metadata = None; } _ => {} }
     if let Some(e) = r.end.as_mut() { e[0] = [0u8, 1, 2, 3, 7][(rng.next() % 5) as usize]; if e.len() >= 2 { e[1] = [255u8, 0, 1, 2, 3][(rng.next() % 5) as usize]; } if e.len() >= 6 { for j in 2..6 { e[j] = [255u8, 0, 1, 2, 3][(rng.next() % 5) as usize]; } } }
@@ -253,8 +255,11 @@ fn read(rng: &mut Rng, ctx: &mut Ctx) {
                     let t = 15 + u32::from_be_bytes([o[11], o[12], o[13], o[14]]) as usize; let d = sink.out.iter().zip(&o).position(|(a, b)| a != b).unwrap_or(sink.out.len().min(o.len())); if d >= t { c.fail("C16", m); } } }
                 Ok(Err(e)) => { let m = format!(".slp writer fails on a sink that takes {} bytes per call: {}", kk, e); c.fail("C01", m.clone()); c.fail("C17", m); }
                 Err(_) => { c.fail("C01", ".slp writer panicked on a short-writing sink"); c.fail("C17", ".slp writer panicked on a short-writing sink"); } }
-            let mut bad = crate::suites2::ShortSink::new(64, Some((k / 4) % 7), 0);
+            // the sink fails at a call somewhere between the first bytes and the last (header, table, start block, frame section, end, metadata)
+            let calls = o.len() / 64 + 1; let mut bad = crate::suites2::ShortSink::new(64, Some(((k / 4) % 7) * calls / 7), 0);
             if let Ok(Ok(())) = std::panic::catch_unwind(std::panic::AssertUnwindSafe(|| slippi::write(&mut bad, g).map_err(|e| e.to_string()))) { c.fail("C17", "a write error injected into the sink did not surface from the .slp writer"); }
+            // history: a write that failed part-way leaves nothing behind — the next write of the same game (same thread) gives the same bytes
+            match write_slp(g) { Ok(o2) => if o2 != o { let m = format!("the .slp written after a failed write differs from the one written before it (lengths {} vs {})", o2.len(), o.len()); c.fail("C17", m.clone()); c.fail("C01", m); }, Err(e) => c.fail("C17", format!("write after a failed write fails: {}", e)) }
         } } }
         ctx.push(c);
         // skip-frames read of finished replays
